@@ -160,6 +160,12 @@ func genFragments() (gs, gh []frag) {
 			map[string]any{"dial": strs("10.0.0.4:443"), "tls": map[string]any{"insecure_skip_verify": true, "server_name": "up.example.com"}}},
 		{[]string{"upstream {", "\tmax_connections 7", "\tdial 10.0.0.5:80", "}"}, "upstreams[]",
 			map[string]any{"dial": strs("10.0.0.5:80"), "max_connections": 7.0}},
+		// "upstream [<address:port>] { dial <address:port> [<address:port>] }": the same-line
+		// address and the dial options name the peers in the order written
+		{[]string{"upstream 10.0.0.6:1 {", "\tdial 10.0.0.7:2", "\tdial 10.0.0.8:3 10.0.0.9:4", "}"}, "upstreams[]",
+			map[string]any{"dial": strs("10.0.0.6:1", "10.0.0.7:2", "10.0.0.8:3", "10.0.0.9:4")}},
+		{[]string{"upstream 10.0.1.1:1 10.0.1.2:2 {", "\tmax_connections 3", "\tdial 10.0.1.3:3", "}"}, "upstreams[]",
+			map[string]any{"dial": strs("10.0.1.1:1", "10.0.1.2:2", "10.0.1.3:3"), "max_connections": 3.0}},
 	}
 	sequences(proxyOpts, k, func(seq []opt) {
 		for _, inline := range [][]string{nil, {"10.9.9.9:1"}, {"10.9.9.8:1", "10.9.9.7:2"}} {
